@@ -153,6 +153,15 @@ func genTTL(r *Rng, tier string, p *Plan) {
 			now = to
 		}
 	}
+	if r.Bool(0.15) {
+		// a sweep: a refresh of a present element lands in each clock read of the
+		// listing queries in turn (there are fewer than 36 of them)
+		it := PickOf(r, ttlItems...)
+		p.Add(Op{K: "add", S: it, At: now})
+		for k := int64(0); k < 36; k++ {
+			p.Add(Op{K: "list_during_add", S: it, At: now, N: k})
+		}
+	}
 }
 
 func simplifyTTL(p *Plan) []*Plan {
